@@ -1337,7 +1337,12 @@ def proximal_l1(space, lam=1, g=None):
             # We write the operator as
             # x - (x - g) / max(|x - g| / sig*lam, 1)
             denom = diff.ufuncs.absolute()
-            denom /= self.sigma * lam
+            sigma = self.sigma
+            if not np.isscalar(sigma) and sigma not in denom.space:
+                # On a complex space `denom` lives in the real space; take
+                # the (real-valued) pointwise step there, too
+                sigma = denom.space.element(sigma.real)
+            denom /= sigma * lam
             denom.ufuncs.maximum(1, out=denom)
 
             # out = (x - g) / denom
